@@ -747,6 +747,16 @@ class Runner:
                         p.packet_type == eio_packet.PING])
         before = pings()
         err = None
+        # (the instance attribute, if any, is put back afterwards: C18 parks
+        # the statistics task of the instrumentation with a sleep of its own)
+        had = 'sleep' in eio.__dict__
+        prev = eio.__dict__.get('sleep')
+
+        def restore():
+            if had:
+                eio.sleep = prev
+            else:
+                eio.__dict__.pop('sleep', None)
         if d.is_async:
             async def nosleep(seconds=0):
                 return None
@@ -759,7 +769,7 @@ class Runner:
             except Exception as e:
                 err = type(e).__name__
             finally:
-                eio.__dict__.pop('sleep', None)
+                restore()
         else:
             eio.sleep = lambda seconds=0: None
             try:
@@ -767,7 +777,7 @@ class Runner:
             except Exception as e:
                 err = type(e).__name__
             finally:
-                eio.__dict__.pop('sleep', None)
+                restore()
         return {'pings_queued': pings() - before, 'raised': err}
 
     def _session_block(self, sid, ns, updates, then=None):
